@@ -609,6 +609,32 @@ func (mgr *Manager) invalidatedDuringTaggingJob(streams bitmask.LongBitmask) {
 	}
 }
 
+// createsTagCycle reports whether replacing the tag name by newTag would leave
+// tags that can never be resolved by inheritTagUncertainty (a reference cycle).
+func (mgr *Manager) createsTagCycle(name string, newTag *tag) bool {
+	resolvedTags := map[string]struct{}{}
+	for progress := true; progress; {
+		progress = false
+	outer:
+		for tn, ti := range mgr.tags {
+			if _, ok := resolvedTags[tn]; ok {
+				continue
+			}
+			if tn == name {
+				ti = newTag
+			}
+			for _, rtn := range ti.referencedTags() {
+				if _, ok := resolvedTags[rtn]; !ok {
+					continue outer
+				}
+			}
+			resolvedTags[tn] = struct{}{}
+			progress = true
+		}
+	}
+	return len(resolvedTags) != len(mgr.tags)
+}
+
 func (mgr *Manager) invalidateTags(updatedStreams, resetStreams, addedStreams bitmask.LongBitmask) {
 	for tn, ti := range mgr.tags {
 		tin := *ti
@@ -1212,6 +1238,17 @@ func (mgr *Manager) UpdateTag(name string, operation UpdateTagOperation) error {
 			tag, ok := mgr.tags[name]
 			if !ok {
 				return fmt.Errorf("unknown tag %q", name)
+			}
+			if newTag != nil {
+				// check if all referenced tags exist
+				for _, rtn := range newTag.referencedTags() {
+					if _, ok := mgr.tags[rtn]; !ok {
+						return fmt.Errorf("unknown referenced tag %q", rtn)
+					}
+				}
+				if mgr.createsTagCycle(name, newTag) {
+					return errors.New("cyclic reference not allowed in tags")
+				}
 			}
 			if info.color != "" {
 				tag.color = info.color
